@@ -163,7 +163,8 @@ func c18GenSetExpr(r *Rand) Op {
 				parts = append(parts, fmt.Sprint(r.Intn(9)))
 			case 1:
 				// quoted identifier: a variable whose name needs quoting
-				n := r.Pick([]string{"my var", "x-y", "Total", "rate%d", "a%sb", "x%%y", "p$1", "tⱥx"})
+				// (among them names spelled like keywords and constants: quoted, they are variables)
+				n := r.Pick([]string{"my var", "x-y", "Total", "rate%d", "a%sb", "x%%y", "p$1", "tⱥx", "in", "NULL", "true", "Not", "like", "is", "and", "Or", "xor", "False"})
 				if !seen[strings.ToUpper(n)] {
 					seen[strings.ToUpper(n)] = true
 					names = append(names, n)
